@@ -22,6 +22,10 @@ class HarnessError(Exception):
     """Something went wrong in the machinery itself: never a verdict."""
 
 
+class RunTimeout(BaseException):
+    """The per-run watchdog fired (a run normally takes milliseconds)."""
+
+
 class Violation(Exception):
     def __init__(self, prop, culprit, op, kind, msg, step=None, detail=None):
         self.prop = prop
@@ -90,7 +94,7 @@ def call(fn, *a, **k):
     """Run one public library call; harness-origin exceptions propagate as HarnessError."""
     try:
         return Outcome(value=fn(*a, **k))
-    except (KeyboardInterrupt, SystemExit, HarnessError, Violation):
+    except (KeyboardInterrupt, SystemExit, HarnessError, Violation, RunTimeout):
         raise
     except BaseException as e:  # noqa
         out = Outcome(exc=e)
